@@ -6,3 +6,6 @@ import EcModel.Props.C09
 import EcModel.Props.C19
 import EcModel.Props.C08
 import EcModel.Props.C20
+import EcModel.Props.C17
+import EcModel.Props.C18
+import EcModel.Props.C07
